@@ -3,6 +3,7 @@ import ScyllaVerif.Model.Codec
 import ScyllaVerif.Model.TypedCarrier
 import ScyllaVerif.Model.C01TypedDecode
 import ScyllaVerif.Model.C01ExternalConv
+import ScyllaVerif.Model.C01VarintNorm
 /-! Line-protocol driver for C01.
 
 Notation (space separated prefix tokens, explicit counts; strings / bytes as hex, `-` = empty; every
@@ -27,6 +28,8 @@ Cases:
   `big blob n`     → `ok <len>` | `err SizeOverflow`  (size check only)
   `conv K n…`      → the driver's conversion between an external-crate value (given by components) and a core carrier
   `tdeciter E T <hex>` → what `ListlikeIterator<E>` / `VectorIterator<E>` / `MapIterator<E,E>` / `UdtIterator` yield
+  `vnorm eq A B sa sb` | `vnorm set n h…` | `vnorm map n h v…` → the normalised `==` / `Hash` of the varint carriers and
+                     `collect()` into `HashSet<CqlVarint>` / `HashMap<CqlVarint, i32>` (`Model/C01VarintNorm.lean`)
   `tdec C T <hex>` → `<embedding of the decoded Rust value>` | `err K` | `no-typecheck` (typed deserializer)
   `carrierser C T V` → `<cell hex>` | `err K` (carriers without a `DeserializeValue` impl)
 -/
@@ -472,6 +475,47 @@ def runBigDecimal (scale : Int) (b : List UInt8) : String :=
     | .ok cell => toHex cell
     | .error e => "err " ++ serErrName e
 
+/-- `vnorm` cases: `Model/C01VarintNorm.lean`. -/
+def runVnorm (w : List String) : String :=
+  open ScyllaVerif.VarintNorm in
+  let b01 (b : Bool) : String := if b then "1" else "0"
+  let i32? (s : String) : Option Int := match s.toInt? with
+    | some x => if -2147483648 ≤ x ∧ x ≤ 2147483647 then some x else none
+    | none => none
+  let sortJoin (xs : List String) : String :=
+    let sorted := xs.mergeSort (fun a b => compare a b != .gt)
+    if sorted.isEmpty then "-" else ",".intercalate sorted
+  let rec pairs : List String → Option (List (List UInt8 × Int))
+    | [] => some []
+    | [_] => none
+    | k :: v :: rest =>
+      match parseHex k, i32? v, pairs rest with
+      | some k, some v, some r => some ((k, v) :: r)
+      | _, _, _ => none
+  match w with
+  | ["eq", ha, hb, sa, sb] =>
+    match parseHex ha, parseHex hb, i32? sa, i32? sb with
+    | some a, some b, some sa, some sb =>
+      s!"eq={b01 (varintEq a b)} heq={b01 (hashInput a == hashInput b)} deq={b01 (decimalEq a sa b sb)}"
+    | _, _, _, _ => "bad-case"
+  | "set" :: n :: hs =>
+    match n.toNat?, hs.mapM parseHex with
+    | some n, some es =>
+      if es.length != n then "bad-case"
+      else
+        let out := collectSet es
+        s!"set {out.length} " ++ sortJoin (out.map toHex)
+    | _, _ => "bad-case"
+  | "map" :: n :: rest =>
+    match n.toNat?, pairs rest with
+    | some n, some kvs =>
+      if kvs.length != n then "bad-case"
+      else
+        let out := collectMap kvs
+        s!"map {out.length} " ++ sortJoin (out.map (fun kv => toHex kv.1 ++ "=" ++ toString kv.2))
+    | _, _ => "bad-case"
+  | _ => "bad-case"
+
 def run (case _impl : String) : String :=
   let toks := words case
   let fuel := toks.length + 1
@@ -554,6 +598,7 @@ def run (case _impl : String) : String :=
     | some sc, some b => runBigDecimal sc b
     | _, _ => "bad-case"
   | "conv" :: rest => runConv rest
+  | "vnorm" :: rest => runVnorm rest
   | "tdeciter" :: elem :: rest =>
     -- the lazy iterators used directly: what they yield = the loops of the model, without `collect()`
     match parseTy fuel rest, carrierOfName elem with
